@@ -688,6 +688,68 @@ func drawPlanA(rt *rapid.T) []step {
 			if rapid.Bool().Draw(rt, "again") {
 				plan = append(plan, step{Op: opWrite, End: x, N: drawWriteSize(rt, scale)}, step{Op: opRelease, End: y})
 			}
+		case 8: // a call started after its deadline has expired while the peer call is parked and ready
+			var peer, call step
+			var dlops []opKind
+			dlEnd := y
+			if rapid.Bool().Draw(rt, "reader") { // x's Write is parked; y reads with an expired read deadline
+				peer = step{Op: opWrite, End: x, N: drawWriteSize(rt, scale)}
+				call = step{Op: opRead, End: y, N: drawReadSize(rt, scale)}
+				dlops = []opKind{opSetRD, opSetRD, opSetD}
+			} else { // y's reader is parked; x writes with an expired write deadline
+				peer = step{Op: opRead, End: y, N: drawReadSize(rt, scale)}
+				if rapid.IntRange(0, 4).Draw(rt, "peerWriteTo") == 0 {
+					peer = step{Op: opWriteTo, End: y, N: -1}
+				}
+				call = step{Op: opWrite, End: x, N: drawWriteSize(rt, scale)}
+				dlops = []opKind{opSetWD, opSetWD, opSetD}
+				dlEnd = x
+			}
+			dlop := rapid.SampledFrom(dlops).Draw(rt, "dop")
+			var expire []step
+			switch rapid.IntRange(0, 2).Draw(rt, "how") {
+			case 0:
+				expire = []step{{Op: dlop, End: dlEnd, DL: dlLongAgo}}
+			case 1:
+				expire = []step{{Op: dlop, End: dlEnd, DL: dlJustNow}}
+			default: // armed in the future, reached by the clock before the call starts
+				d := rapid.IntRange(0, 20).Draw(rt, "dms")
+				expire = []step{{Op: dlop, End: dlEnd, DL: dlFuture, D: d}, {Op: opAdvance, D: d + rapid.IntRange(1, 3).Draw(rt, "over")}}
+			}
+			if rapid.Bool().Draw(rt, "peerFirst") {
+				plan = append(plan, peer)
+				plan = append(plan, expire...)
+			} else {
+				plan = append(plan, expire...)
+				plan = append(plan, peer)
+			}
+			plan = append(plan, call)
+			switch rapid.IntRange(0, 3).Draw(rt, "then") {
+			case 0: // still expired: once more
+				call.N = max(1, call.N)
+				plan = append(plan, call)
+			case 1, 2: // re-enabled: the same call now meets the peer, which must have lost / got nothing meanwhile
+				plan = append(plan, step{Op: dlop, End: dlEnd, DL: rapid.SampledFrom([]int{dlZero, dlFuture}).Draw(rt, "clear"), D: rapid.IntRange(0, 30).Draw(rt, "dms2")})
+				plan = append(plan, call)
+			}
+		case 9: // Close of an end whose read side is closed already (by itself or by the peer's CloseWrite), then probes before the peer closes
+			if rapid.Bool().Draw(rt, "parkedPeerReader") {
+				plan = append(plan, step{Op: rapid.SampledFrom([]opKind{opRead, opRead, opWriteTo}).Draw(rt, "prk"), End: y, N: -1})
+				if plan[len(plan)-1].Op == opRead {
+					plan[len(plan)-1].N = max(1, drawReadSize(rt, scale))
+				}
+			}
+			if rapid.Bool().Draw(rt, "byPeer") {
+				plan = append(plan, step{Op: opCloseWrite, End: y})
+			} else {
+				plan = append(plan, step{Op: opCloseRead, End: x})
+			}
+			plan = append(plan, step{Op: opClose, End: x})
+			probes := []step{{Op: opRead, End: y, N: max(1, drawReadSize(rt, scale))}, {Op: opWrite, End: y, N: drawWriteSize(rt, scale)},
+				{Op: opWrite, End: x, N: drawWriteSize(rt, scale)}, {Op: opWriteTo, End: y, N: -1}, {Op: opRead, End: x, N: drawReadSize(rt, scale)}}
+			for _, i := range rapid.Permutation([]int{0, 1, 2, 3, 4}).Draw(rt, "probeOrder")[:rapid.IntRange(2, 5).Draw(rt, "nprobes")] {
+				plan = append(plan, probes[i])
+			}
 		case 5, 6: // matched transfer
 			w, r := step{Op: opWrite, End: x, N: drawWriteSize(rt, scale)}, step{Op: opRead, End: y, N: drawReadSize(rt, scale)}
 			if rapid.Bool().Draw(rt, "readFirst") {
@@ -719,6 +781,7 @@ type replayDoc struct {
 	Mode string `json:"mode"`
 	Plan []step `json:"plan,omitempty"`
 	B    *planB `json:"b,omitempty"`
+	C    *planC `json:"c,omitempty"`
 }
 
 var recA = ev.New("C15", "owned-schedule",
@@ -732,7 +795,11 @@ var recA = ev.New("C15", "owned-schedule",
 	Require("partial-write", "deadline-woke-pending", "deadline-woke-partial-write", "half-close-reverse-used", "close-woke-pending",
 		"multi-reader-choice", "zero-write", "zero-read", "writeto-moved", "sink-fail", "deadline-refreshed-after-fire",
 		"deadline-changed-while-sink-write-pending", "deadline-fired-and-cleared-while-sink-write-pending", "deadline-fired-while-sink-write-pending",
-		"close-while-sink-write-pending", "gated-sink-released")
+		"close-while-sink-write-pending", "gated-sink-released",
+		// round 6
+		"expired-read-vs-parked-write", "expired-write-vs-parked-reader",
+		"close-after-read-side-closed", "close-after-read-side-closed/peer-read-eof", "close-after-read-side-closed/local-write-fails",
+		"close-after-read-side-closed/peer-write-fails")
 
 func labelsA(ci caseInfoA, plan []step) []string {
 	var l []string
@@ -761,6 +828,13 @@ func labelsA(ci caseInfoA, plan []step) []string {
 	add(f.DlFiredInSink, "deadline-fired-while-sink-write-pending")
 	add(f.CloseInSink, "close-while-sink-write-pending")
 	add(f.WdlInSink, "write-deadline-while-sink-write-pending")
+	add(f.ExpRead, "expired-read-vs-parked-write")
+	add(f.ExpWrite, "expired-write-vs-parked-reader")
+	add(f.LateClose, "close-after-read-side-closed")
+	add(f.LateClosePRead, "close-after-read-side-closed/peer-read-eof")
+	add(f.LateCloseLWr, "close-after-read-side-closed/local-write-fails")
+	add(f.LateClosePWr, "close-after-read-side-closed/peer-write-fails")
+	add(f.LateCloseWoke, "close-after-read-side-closed/woke-parked-peer-reader")
 	add(ci.MaxCands > 1, "multiple-model-candidates")
 	add(ci.Skipped > 0, "step-skipped-by-gate")
 	return l
@@ -823,6 +897,15 @@ func TestReplayPlan(t *testing.T) {
 				t.Fatalf("%s", viol)
 			}
 		}
+	case "C":
+		if doc.C == nil {
+			t.Fatal("no plan")
+		}
+		for range 50 {
+			if viol, _ := runPlanC(*doc.C); viol != "" {
+				t.Fatalf("%s", viol)
+			}
+		}
 	default:
 		t.Fatalf("unknown mode %q", doc.Mode)
 	}
@@ -881,6 +964,23 @@ func TestFixedPlansA(t *testing.T) {
 			{Op: opWriteTo, End: A, N: 1, G: true}, {Op: opWrite, End: B, N: 4}, {Op: opCloseRead, End: A}, {Op: opRelease, End: A}},
 			[]string{"", "", "", "", "", "#0 n=3 timeout, #1 n=3 nil", "", "", "", "#2 n=1 sink, #3 n=1 closed"},
 			func(f facts) bool { return f.DlFiredInSink && f.CloseInSink && f.WdlInSink }},
+		// round 6
+		{"calls started after their deadline expired time out although the peer is parked, and move nothing", []step{
+			{Op: opWrite, End: A, N: 4}, {Op: opSetRD, End: B, DL: dlLongAgo}, {Op: opRead, End: B, N: 2}, {Op: opSetRD, End: B, DL: dlZero},
+			{Op: opRead, End: B, N: 2}, {Op: opRead, End: B, N: 8},
+			{Op: opRead, End: B, N: 3}, {Op: opSetWD, End: A, DL: dlFuture, D: 2}, {Op: opAdvance, D: 3}, {Op: opWrite, End: A, N: 5},
+			{Op: opWrite, End: A, N: 0}, {Op: opSetWD, End: A, DL: dlZero}, {Op: opWrite, End: A, N: 1}},
+			[]string{"", "", "#1 n=0 timeout", "", "#2 n=2 nil", "#0 n=4 nil, #3 n=2 nil", "", "", "", "#5 n=0 timeout", "#6 n=0 timeout", "", "#4 n=1 nil, #7 n=1 nil"},
+			func(f facts) bool { return f.ExpRead && f.ExpWrite && f.Refreshed }},
+		{"Close after the peer's CloseWrite still closes the write side", []step{
+			{Op: opCloseWrite, End: B}, {Op: opClose, End: A}, {Op: opRead, End: B, N: 1}, {Op: opWrite, End: B, N: 1}, {Op: opWrite, End: A, N: 1}},
+			[]string{"", "", "#0 n=0 EOF", "#1 n=0 closed", "#2 n=0 closed"},
+			func(f facts) bool { return f.LateClose && f.LateClosePRead && f.LateClosePWr && f.LateCloseLWr }},
+		{"Close after the end's own CloseRead still closes the write side", []step{
+			{Op: opRead, End: B, N: 3}, {Op: opCloseRead, End: A}, {Op: opClose, End: A}, {Op: opRead, End: B, N: 1}, {Op: opWrite, End: B, N: 2},
+			{Op: opWrite, End: A, N: 1}, {Op: opRead, End: A, N: 1}},
+			[]string{"", "", "#0 n=0 EOF", "#1 n=0 EOF", "#2 n=0 closed", "#3 n=0 closed", "#4 n=0 closed"},
+			func(f facts) bool { return f.LateClose && f.LateCloseWoke && f.LateClosePRead && f.LateClosePWr && f.LateCloseLWr }},
 	}
 	for _, c := range cases {
 		viol, ci := runPlanA(t, c.plan)
